@@ -1,13 +1,56 @@
-(** Property C11 — statements only. Each theorem is closed by [exact] of a lemma
-    proved elsewhere and followed by [Print Assumptions]. *)
-From CR Require Import Base Atomic Machine LinksFacts HeapFacts TraceFacts Local.
+(** Property C11 — a panicking destructor cannot cause double destruction or
+    dangling state. Unwinding is part of the machine ([unwind_stack]); the
+    invariant holds in unwinding mode too, with the skipped finish obligations
+    accounted for as leaks ([EvLeak], [n_leak]). *)
+From Coq Require Import Permutation.
+From CR Require Import Base Atomic Machine LinksFacts HeapFacts TraceFacts TraceTotal Local StackBound
+  Termination Perm StdRc StdRefine Tokens InvDef InvLemmas ActBase ActHandles ActAdopt ActMove ActConsume
+  StepFrames StepPanic Purge GroupOps DropDec Group DropLast StepInv RunInv Consequences Common.
 Local Open Scope N_scope.
 
-Theorem C11_dead_handle_drop_partial :
-  forall pri s k u o b,
-  getb (heap_of s) o = Ok b -> is_dead (strong b) = true ->
-  step pri {| st := s; stack := FDropStrong o :: k; unw := u |} =
-  Running {| st := s; stack := k; unw := u |}.
-Proof. exact step_drop_dead. Qed.
-Print Assumptions C11_dead_handle_drop_partial.
+Theorem C11_unwinding_preserves_invariant :
+  forall s p pc k, Inv s (FRunDtor p pc :: k) ->
+  let '(s1, k1) := unwind_stack s k in Inv s1 (FDropSlots (slots p) :: k1).
+Proof. exact unwind_inv. Qed.
+Print Assumptions C11_unwinding_preserves_invariant.
 
+(** for every panic position, every teardown path: the run (with panics
+    anywhere) keeps the invariant, never faults, ... *)
+Theorem C11_runs_with_panics :
+  forall pri fuel c, Inv_cfg c -> run_ok pri fuel c = true -> run_goal (run pri fuel c).
+Proof. exact run_inv. Qed.
+Print Assumptions C11_runs_with_panics.
+
+(** ... and the panic propagates to the caller: once unwinding, the call ends
+    as panicked (or the process aborts on a second panic) *)
+Theorem C11_panic_propagates :
+  forall pri fuel c, unw c = true ->
+  match run pri fuel c with
+  | Running c' => unw c' = true
+  | Finished _ p => p = true
+  | Halted _ _ => True
+  end.
+Proof. exact run_unw. Qed.
+Print Assumptions C11_panic_propagates.
+
+Theorem C11_second_panic_aborts :
+  forall pri s p pc k,
+  step pri {| st := s; stack := FRunDtor p (APanic :: pc) :: k; unw := true |} = Halted s HAbort.
+Proof. exact step_double_panic. Qed.
+Print Assumptions C11_second_panic_aborts.
+
+(** after a panicked call the invariant holds at the boundary: nothing reachable
+    is destroyed (C01), counters exact (C06), members gathered before the panic
+    stay dead for Weak (C05), and an allocation is released only when unneeded,
+    hence never twice: leaked obligations keep it *)
+Theorem C11_call_outcome :
+  forall pri fuel s o, Inv s [] -> op_ok pri fuel s o = true -> op_goal (exec_op pri fuel s o).
+Proof. exact exec_op_inv. Qed.
+Print Assumptions C11_call_outcome.
+
+Theorem C11_leaked_teardown_keeps_allocation :
+  forall s k o b, Inv s k -> nth_error (heap_of s) o = Some b ->
+  (freed b = true <->
+   live b = false /\ W (sw_weak o) s k = 0 /\ n_after o k + n_fin o k + n_leak o (log s) = 0).
+Proof. exact freed_iff. Qed.
+Print Assumptions C11_leaked_teardown_keeps_allocation.
